@@ -1,7 +1,7 @@
 (* Extract.v - monolithic extraction of the executable models and specs.
    ExtrOcamlBasic only: bool, option, list, prod, unit, sumbool map to
    OCaml's; N, Z, positive and nat stay the extracted inductives. *)
-Require Import PV.Base PV.Dec PV.Dewey PV.DeweySpec PV.Pattern PV.AltSpec PV.Summary PV.Distinfo PV.DigestM PV.Plist.
+Require Import PV.Base PV.Dec PV.Dewey PV.DeweySpec PV.Pattern PV.AltSpec PV.Summary PV.Distinfo PV.DigestM PV.Plist PV.PkgPathM PV.ScanIndex.
 Require Extraction.
 Require Import ExtrOcamlBasic.
 Extraction Language OCaml.
@@ -16,5 +16,6 @@ Extraction "model.ml"
   stream_write stream_init print_stream utf8_valid lines
   all_algs alg_name alg_parse alg_parse_bytes filter_patch classify parse_dline di_from_bytes di_as_bytes di_insert di_empty
   hash_file_pre hash_patch_pre
+  pkgpath_new pkgpath_eqb depend_new scan_read words trim
   entry_of_bytes plist_of_bytes scan_lines files files_prefixed install_cmds uninstall_cmds depends build_depends conflicts pkgdirs pkgrmdirs pl_pkgname pl_display is_preserve
-  entry_bytes find_entry verify_size verify_checksum path_eqb comps.
+  entry_bytes find_entry verify_size verify_checksum path_eqb pcomps.
